@@ -1,1 +1,161 @@
-From C32 Require Import Gen Model ModelSpec.
+(* C32/Properties.v — property C32: full sync imports only consistent chains, parents first.
+   Only statements, each closed by `exact`/`apply` of a lemma, Print Assumptions beneath.
+
+   The subject is the model of the REPAIRED FullSyncStrategy.Process
+   (process true true true = fixes/C32-1..3 applied) running against the environment of
+   Model.v: `known` = the headers of the block state, import_block = the checks of
+   blockImporter.importBlock in their order.  An EOrphan event is a block handed to the
+   importer while its parent header is unknown; EDup a header handed over although the block
+   state has it; EImport s the execution and storing of the block with stated hash s. *)
+From Coq Require Import NArith ZArith List Bool Lia.
+From Common Require Import Outcome.
+From C32 Require Import Gen Model ModelSpec ProofsChain ProofsImport ProofsProcess ProofsHistory.
+Import ListNotations.
+Local Open Scope N_scope.
+
+(* Parents first, never twice, no panic — for every history.  From the initial state (only the
+   root known), for every list of bad blocks and every history of block announces, externally
+   imported blocks, finalisations and Process calls with ARBITRARY results (split, reordered,
+   duplicated, forked, disconnected, forged, empty, unfinished; at most 12 per call, requests
+   asking for bodies as every request of full sync does):
+   - no Process call panics,
+   - every Process call returns without an importer error,
+   - history_ok_b holds of what the run shows: over the whole history the importer is never
+     handed a block whose parent is unknown (no EOrphan) or whose header is already stored
+     (no EDup), no stated hash is imported twice, and no result that must be rejected (forged
+     stated hash, or not a hash-linked chain) is accepted by validateResults. *)
+Theorem C32_history_safe : forall bad root steps,
+  steps_wf_b steps = true ->
+  exists outs stf,
+    run true true true bad (init_state root) steps = (outs, false, stf)
+    /\ length outs = length steps
+    /\ history_ok_b [] steps (observe bad steps outs) = true.
+Proof.
+  intros bad root steps W.
+  exact (run_fixed_safe bad steps (init_state root) [] (init_inv root) (steps_wf_forall steps W)).
+Qed.
+Print Assumptions C32_history_safe.
+
+(* the same from any state that satisfies the invariant (announced blocks carry their own hash,
+   the kept disjoint fragments are non-empty good chains, everything imported so far is known) *)
+Theorem C32_history_safe_from : forall bad steps st imported,
+  inv_state st imported -> steps_wf_b steps = true ->
+  exists outs stf,
+    run true true true bad st steps = (outs, false, stf)
+    /\ length outs = length steps
+    /\ history_ok_b imported steps (observe bad steps outs) = true.
+Proof.
+  intros bad steps st imported I W.
+  exact (run_fixed_safe bad steps st imported I (steps_wf_forall steps W)).
+Qed.
+Print Assumptions C32_history_safe_from.
+
+(* what the event check means *)
+Theorem C32_events_meaning : forall evs imp imp',
+  events_ok_b imp evs = (true, imp') ->
+  Forall (fun e => match e with EOrphan _ | EDup _ => False | _ => True end) evs
+  /\ NoDup (imports_of evs)
+  /\ (forall s, In s (imports_of evs) -> ~ In s imp)
+  /\ (forall s, In s imp' <-> In s imp \/ In s (imports_of evs)).
+Proof. exact events_ok_sound. Qed.
+Print Assumptions C32_events_meaning.
+
+(* Rejection.  A completed result whose response contains a block whose stated hash differs
+   from the hash of its header, or (headers requested and present) is not a chain linked by
+   header hashes and consecutive numbers, is never accepted by validateResults — whatever the
+   bad-block list and the other two switches. *)
+Theorem C32_reject_forged_or_unlinked : forall frg lg bad r,
+  must_reject r = true -> forall q resp, classify true frg lg bad r <> VAccept q resp.
+Proof. exact must_reject_not_accepted. Qed.
+Print Assumptions C32_reject_forged_or_unlinked.
+
+(* ---- non-vacuity: a fork tree  0 <- 1 <- 2 <- 3,  1 <- 4 <- 5; responses arrive split, out of
+   order and duplicated; block 5's fragment waits as a disjoint fragment until 4 arrives *)
+Definition hd (i p n : N) : header := mkhdr i p n.
+Definition blk (h : header) : bdata := mkbd (h_hash h) (Some h) true false.
+Definition H1 := hd 1 0 1. Definition H2 := hd 2 1 2. Definition H3 := hd 3 2 3.
+Definition H4 := hd 4 1 2. Definition H5 := hd 5 4 3.
+Definition res (who : N) (l : list bdata) : result := mkres who true (mkreq 19 0) l.
+
+Definition ex_history : list step :=
+  [ SProcess [ res 1 [blk H5]; res 2 [blk H2; blk H3]; res 1 [blk H1]; res 2 [blk H2; blk H3] ];
+    SProcess [ res 3 [blk H4] ] ].
+
+Example C32_example :
+  steps_wf_b ex_history = true /\
+  match run true true true [] (init_state 0) ex_history with
+  | ([Some r1; Some r2], false, st) =>
+    pr_events r1 = [EImport 1; EImport 2; EImport 3; ESkip 2; ESkip 3]
+    /\ map (map d_hash) (u_disjoint (p_un (pr_state r1))) = [[5]] /\ p_queue (pr_state r1) = [4]
+    /\ pr_events r2 = [EImport 4; EImport 5]
+    /\ u_disjoint (p_un st) = []
+  | _ => False
+  end.
+Proof. vm_compute. repeat split; reflexivity. Qed.
+
+(* a forged response: block 3's header under a stated hash 77, linked "correctly" to a made-up
+   header whose parent is 77 *)
+Definition forged_result : result :=
+  mkres 1 true (mkreq 19 0) [ mkbd 77 (Some H3) true false; blk (hd 9 77 4) ].
+
+Example C32_forged_example :
+  must_reject forged_result = true
+  /\ classify true true true [] forged_result = VRep REP_BAD_MESSAGE.
+Proof. vm_compute. split; reflexivity. Qed.
+
+(* ---- the pinned tree (process false false false) violated the property *)
+
+(* the forged response above was accepted *)
+Theorem C32_forged_accepted_refuted :
+  exists r q resp, must_reject r = true /\ classify false false false [] r = VAccept q resp.
+Proof. exists forged_result. eexists _, _. vm_compute. split; reflexivity. Qed.
+Print Assumptions C32_forged_accepted_refuted.
+
+(* ... and forged blocks reached the importer: with blocks 1, 2 known, block 3's header is
+   imported under the stated hash 77; sent again under the stated hash 78 the same header is
+   handed to the importer a second time (EDup: the block state already has it) *)
+Theorem C32_forged_imported_twice_refuted :
+  exists steps outs st, steps_wf_b steps = true /\
+    run false false false [] (init_state 0) steps = (outs, false, st) /\
+    existsb (fun o => match o with
+                      | Some r => existsb (fun e => match e with EDup _ => true | _ => false end) (pr_events r)
+                      | None => false end) outs = true.
+Proof.
+  exists [ SProcess [ res 1 [blk H1; blk H2] ];
+           SProcess [ mkres 1 true (mkreq 19 0) [ mkbd 77 (Some H3) true false ] ];
+           SProcess [ mkres 2 true (mkreq 19 0) [ mkbd 78 (Some H3) true false ] ] ].
+  eexists _, _. vm_compute. repeat split; reflexivity.
+Qed.
+Print Assumptions C32_forged_imported_twice_refuted.
+
+(* one empty response made Process panic (index out of range) *)
+Theorem C32_empty_response_panic_refuted :
+  exists steps, steps_wf_b steps = true /\
+    snd (fst (run false false false [] (init_state 0) steps)) = true.
+Proof. exists [ SProcess [ res 1 [] ] ]. vm_compute. split; reflexivity. Qed.
+Print Assumptions C32_empty_response_panic_refuted.
+
+(* a body-only answer that completes two announced, unrelated blocks handed the importer a block
+   whose parent is unknown *)
+Theorem C32_completed_blocks_orphan_refuted :
+  exists steps outs st, steps_wf_b steps = true /\
+    run false false false [] (init_state 0) steps = (outs, false, st) /\
+    existsb (fun o => match o with
+                      | Some r => existsb (fun e => match e with EOrphan _ => true | _ => false end) (pr_events r)
+                      | None => false end) outs = true.
+Proof.
+  exists [ SAnnounce H1; SAnnounce H5;
+           SProcess [ mkres 1 true (mkreq 18 0) [ mkbd 1 None true false; mkbd 5 None true false ] ] ].
+  eexists _, _. vm_compute. repeat split; reflexivity.
+Qed.
+Print Assumptions C32_completed_blocks_orphan_refuted.
+
+(* a body-only answer with a known bad block made validateResults panic (nil header) *)
+Theorem C32_bad_block_nil_header_panic_refuted :
+  exists steps, steps_wf_b steps = true /\
+    snd (fst (run false false false [1] (init_state 0) steps)) = true.
+Proof.
+  exists [ SAnnounce H1; SProcess [ mkres 1 true (mkreq 18 0) [ mkbd 1 None true false ] ] ].
+  vm_compute. split; reflexivity.
+Qed.
+Print Assumptions C32_bad_block_nil_header_panic_refuted.
